@@ -15,6 +15,7 @@ mod c08;
 mod c09;
 mod c10;
 mod c11;
+mod c12;
 mod c19;
 mod prog;
 
@@ -119,6 +120,7 @@ fn main() {
         "c09" => c09::run(&ctx),
         "c10" => c10::run(&ctx),
         "c11" => c11::run(&ctx),
+        "c12" => c12::run(&ctx),
         "c19" => c19::run(&ctx),
         "c19dump" => c19::dump(&ctx),
         _ => {
@@ -138,6 +140,7 @@ fn roles(args: &[String]) -> i32 {
         Some("c05-reader") => c05::role_reader(&args[1..]),
         Some("c08-client") => c08::role_client(&args[1..]),
         Some("c09-sender") => c09::role_sender(&args[1..]),
+        Some("c12-crasher") => c12::role_crasher(&args[1..]),
         Some("lsfd") => {
             // unrelated child: print inherited descriptors
             for (fd, t) in util::fd_table() {
